@@ -77,8 +77,9 @@ r=simlib.Real(w[1]); print(r.run(w[3][1:])[0])
 # ---------------- rejected ----------------
 out=[]
 x=["x",["int","0","10"],[]]; b=["b","bool",[]]; u=["u",I,[]]
-# initial state violates a bound / an invariant / reads an undefined fluent in an invariant
-for nm, fls, traj in (("rej1",[[x,i(11)],[b,F]],[]), ("rej2",[[x,i(1)],[b,F]],[["always",fl(b)]]), ("rej3",[[x,i(1)],[u,"_"]],[["always",["le",fl(u),i(3)]]])):
+# initial state violates an invariant / reads an undefined fluent in an invariant (an out-of-bounds initial
+# value is rejected by the model builders since the C23 fix)
+for nm, fls, traj in (("rej2",[[x,i(1)],[b,F]],[["always",fl(b)]]), ("rej3",[[x,i(1)],[u,"_"]],[["always",["le",fl(u),i(3)]]])):
     ps=prob(nm,fls,[act("a",[],[],[eff("assign",fl(x),i(2))])],traj=traj)
     w=case(ps,[["init"],["dump","1"],["goal","0"],["init"],["apply","4","a",[]],["applicable","0"],["init"]])
     out.append(w)
